@@ -1,7 +1,6 @@
 """C16: generator of test contracts with MANY assertion-violating candidate paths per function.
 
-A test function is a decision tree over calldata words x0..x3 (and, in two families, over storage / a value-bearing
-call).  Inner nodes branch on a condition from a pool that contains *conflicting groups* (range conflicts, order
+A test function is a decision tree over calldata words x0..x3 (and, in one family, a value-bearing call).  Inner nodes branch on a condition from a pool that contains *conflicting groups* (range conflicts, order
 cycles, parity conflicts, linear-sum conflicts, ...), so that different leaves are infeasible for different reasons
 (different unsat cores), other leaves are feasible, and sibling leaves share prefixes (so a core learned on one leaf is
 a subset of later queries).  Leaves are `Panic(1)` (a candidate assertion violation) or `STOP`.
@@ -62,6 +61,11 @@ def c_bits(i, m, v):
 
 def c_sum(i, j, c):
     return (f"x{i}+x{j}=={c}", A(i) + A(j) + ["ADD", ("PUSH", c), "EQ"])
+
+
+def c_mul(i, j, c):
+    """x_i * x_j == c: halmos abstracts the product (f_evm_bvmul_256); infeasibility shows only after refinement"""
+    return (f"x{i}*x{j}=={c}", A(i) + A(j) + ["MUL", ("PUSH", c), "EQ"])
 
 
 def c_sgt(i, c):
@@ -166,6 +170,7 @@ def conflict_groups(rng):
         ([c_sgt(j, 0), c_gt(j, 2 ** 255)], c_lt(j, 4)),  # signed vs unsigned
         ([c_shr(k, 8, 1), c_lt(k, 256)], c_gt(k, 300)),
         ([c_succ(i, j), c_ltv(j, i), c_lt(i, a)], c_lt(i, a)),  # y==x+1 & y<x needs wrap-around, excluded by x<a
+        ([c_mul(i, j, 6), c_eq(i, 2), c_eq(j, 4)], c_eq(j, 3)),  # unsat only after refinement of f_evm_bvmul
     ]
 
 
@@ -275,46 +280,65 @@ def fam_chain(rng, n=None, nfun=1):
     return fns, desc
 
 
-def fam_storage(rng, nfun=2):
-    """paths that differ in NON-branching constraints (storage definitions) and share branching conditions"""
+def fam_valuecall(rng, nfun=2):
+    """a non-branching constraint (`value <= balance(this)`, added by a value-bearing CALL to the path that continues
+    after the transfer) added AFTER a branching condition, on one sibling only: c := x0 > 2^k (more than the test
+    contract owns); then either CALL{value:x0} (the success continuation is infeasible only because of the non-branching
+    balance constraint) or nothing (feasible) -- both end in Panic(1).  Both sibling orders are generated (function 2q
+    and 2q+1), since the cache only affects queries solved AFTER the infeasible one."""
     fns, desc = [], []
     for k in range(nfun):
-        slot = rng.choice([0, 1, 7])
-        v1 = A(0)
-        v2 = A(0) + [("PUSH", 1), "ADD"]
-        st1 = v1 + [("PUSH", slot), "SSTORE"]
-        st2 = v2 + [("PUSH", slot), "SSTORE"]
-        ld_eq = ("s==x0+1", [("PUSH", slot), "SLOAD"] + v2 + ["EQ"])
-        ld_eq0 = ("s==x0", [("PUSH", slot), "SLOAD"] + v1 + ["EQ"])
-        tail = ("if", ld_eq, ("if", ld_eq0, ("panic",), ("panic",)), ("if", c_eq(1, 7), ("panic",), ("stop",)))
-        t = ("if", c_bits(2, 1, 1), ("seq", st1, tail), ("seq", st2, tail))
-        if rng.random() < 0.5:
-            t = ("if", c_bits(2, 1, 1), t[3], t[2])
-        fns.append((f"check_s{k}{SIG4}", emit(t)))
-        desc.append(describe(t))
-    return fns, desc
-
-
-def fam_valuecall(rng, nfun=1):
-    """a non-branching constraint (callee-side `value <= balance`, balance <= 2^128 bound) added AFTER a branching
-    condition, on one sibling only: c := x0 > 2^130; then either CALL{value:x0} (success path infeasible because of the
-    non-branching balance constraints) or nothing (feasible) -- both end in Panic(1)"""
-    fns, desc = [], []
-    for k in range(nfun):
-        big = c_gt(0, 2 ** rng.choice([129, 130, 200]))
+        big = c_gt(0, 2 ** rng.choice([96, 129, 130, 200]) - 1)
         call = [("PUSH", 0), ("PUSH", 0), ("PUSH", 0), ("PUSH", 0)] + A(0) + [("PUSH", 0xBEEF00 + k, 20), "GAS", "CALL"]
         ok = ("call-ok", [])  # success flag already on the stack
-        with_call = ("seq", call, ("if", ok, ("panic",), ("stop",)))
-        without = ("panic",)
-        sel = c_bits(1, 1, 1)
-        inner = ("if", sel, with_call, without) if rng.random() < 0.5 else ("if", sel, without, with_call)
+        fail_leaf = ("panic",) if rng.random() < 0.5 else ("stop",)
+        with_call = ("seq", call, ("if", ok, ("panic",), fail_leaf))
+        without = ("panic",) if rng.random() < 0.7 else ("if", c_eq(2, 7), ("panic",), ("panic",))
+        sel = c_bits(1, 1, 1) if rng.random() < 0.5 else c_eq(1, 0)
+        inner = ("if", sel, with_call, without) if k % 2 == 0 else ("if", sel, without, with_call)
         t = ("if", big, inner, ("stop",))
         fns.append((f"check_v{k}{SIG4}", emit(t)))
         desc.append(describe(t))
     return fns, desc
 
 
-FAMILIES = {"tree": fam_tree, "twin": fam_twin, "chain": fam_chain, "storage": fam_storage, "valuecall": fam_valuecall}
+def fam_assume(rng, nfun=1, cases=None, extra=None):
+    """conditions OWNED BY ONE PATH: `switch (x1) case i: vm.assume(x0 != r_i1) ... vm.assume(lo_i < x0 && x0 < hi_i);
+    assert(false)`.  vm.assume appends its condition without a feasibility check, so an empty range reaches the
+    assertion solver and yields a ONE-id core; the conditions of a finished case are referenced by nothing but that
+    path.  If the cache's ids did not pin their terms, z3 would hand the same ids to the assume-conditions of later
+    cases (about half of which are satisfiable)."""
+    fns, desc = [], []
+    for k in range(nfun):
+        K = cases or rng.choice([8, 12])
+        nx = extra if extra is not None else rng.choice([3, 5])
+        items = []
+        for i in range(K):
+            items += A(1) + [("PUSH", i), "EQ", ("PUSHL", f"case{i}"), "JUMPI"]
+        items += ["STOP"]
+        shape = []
+        for i in range(K):
+            lo, hi = rng.randrange(1, 1 << 32), rng.randrange(1, 1 << 32)
+            if rng.random() < 0.5:
+                lo, hi = max(lo, hi), min(lo, hi)  # empty range
+            split = rng.random() < 0.3  # two assumes (2-id core) instead of one conjunction (1-id core)
+            items += [("LABEL", f"case{i}")]
+            for _ in range(nx):
+                r = rng.randrange(1, 1 << 32)
+                items += e2e.call_cheat("assume(bool)", [A(0) + [("PUSH", r), "EQ", "ISZERO"]]) + ["POP"]
+            if split:
+                items += e2e.call_cheat("assume(bool)", [c_gt(0, lo)[1]]) + ["POP"]
+                items += e2e.call_cheat("assume(bool)", [c_lt(0, hi)[1]]) + ["POP"]
+            else:
+                items += e2e.call_cheat("assume(bool)", [c_gt(0, lo)[1] + c_lt(0, hi)[1] + ["AND"]]) + ["POP"]
+            items += e2e.panic(1)
+            shape.append(("E" if lo + 1 >= hi else "F") + ("2" if split else "1"))
+        fns.append((f"check_a{k}{SIG4}", items))
+        desc.append(f"assume K={K} extra={nx} cases={''.join(shape)}")
+    return fns, desc
+
+
+FAMILIES = {"tree": fam_tree, "twin": fam_twin, "chain": fam_chain, "valuecall": fam_valuecall, "assume": fam_assume}
 
 
 def make(family: str, seed: int, **kw):
@@ -330,7 +354,7 @@ def mixed(seed: int):
     them)"""
     rng = random.Random(f"c16/mixed/{seed}")
     fns, desc = [], []
-    for fam in rng.sample(["tree", "twin", "chain", "storage", "tree"], 3):
+    for fam in rng.sample(["tree", "twin", "chain", "valuecall", "tree"], 3):
         f, d = FAMILIES[fam](rng, nfun=1)
         fns.append((f[0][0].replace("check_", f"check_m{len(fns)}_"), f[0][1]))
         desc += d
